@@ -1,11 +1,14 @@
 """C20 — custom frame codecs plug in without changing client or device-side behaviour."""
+import contextlib
 import random
+import struct
 
 from common import Prop, hexs, unhex, exc_name
 import famcodec as fc
 import genlib as g
 import sessionlib as sl
 import refdev
+import streamgen as gen
 import streamglue as sg
 import vsim
 from props.C02 import CB_OF
@@ -100,19 +103,49 @@ def map_frames(state, codec):
     return ";".join(out)
 
 
-def run_session(pstr, flags, en, div, ops, started):
-    """(mapped per-op states, summary) of one whole client session; pstr None = the built-in codec"""
+PR_DEVICES = []      # the ParseRecv-based devices created by the sessions (their wire problems are read back)
+
+
+@contextlib.contextmanager
+def device_kind(pstr, kind):
+    """kind "pr": the session's device is famcodec's ParseRecv(cb, frame=cls)-based one instead of the reference device
+    (sessionlib constructs `refdev.RefDevice`; swapped for the duration of the session)"""
+    if kind != "pr":
+        yield
+        return
+    base = fc.pr_device_factory(pstr)
+
+    def make(*a, **kw):
+        d = base(*a, **kw)
+        PR_DEVICES.append(d)
+        return d
+    old = refdev.RefDevice
+    refdev.RefDevice = make
+    try:
+        yield
+    finally:
+        refdev.RefDevice = old
+
+
+def run_session(pstr, flags, en, div, ops, started, dev="ref"):
+    """(mapped per-op states, summary) of one whole client session; pstr None = the built-in codec;
+    dev "pr": the device's wire side is the real ParseRecv(cb, frame=cls)"""
+    del PR_DEVICES[:]
     if pstr is None:
         out, info = sl.run_cfg_history(flags, en, div, ops, started=started)
         codec = fc.SerialRef()
     else:
-        out, info = sl.run_cfg_history(flags, en, div, ops, started=started,
-                                       codec_factory=lambda: fc.RefCodec(pstr), frame_cls=fc.frame_cls(pstr))
+        with device_kind(pstr, dev):
+            out, info = sl.run_cfg_history(flags, en, div, ops, started=started,
+                                           codec_factory=lambda: fc.RefCodec(pstr), frame_cls=fc.frame_cls(pstr))
         codec = fc.RefCodec(pstr)
     summ = {"errors": info["errors"], "live_after": info["live_after"],
             "connect_time": round(info.get("connect_time", -1) * 10),
             "dev_started_after_connect": info.get("dev_started_after_connect"),
             "requests": [(round(t * 10), k, hexs(p)) for t, k, p in info["log"]]}
+    if dev == "pr":
+        summ["wire_problems"] = [(fid, hexs(pl), f if isinstance(f, str) or f is None else hexs(f))
+                                 for d in PR_DEVICES for fid, pl, f in d.wire_problems]
     return [map_frames(s, codec) for s in out], summ
 
 
@@ -124,17 +157,18 @@ def parse_stream(line):
         ty, vdim, mlen, en = (int(x) for x in c.split(":"))
         chans.append(dict(en=bool(en), type=ty, vdim=vdim, div=0, mlen=mlen, name=f"c{i}"))
     enable = [int(x) for x in t[4].split(",")] if t[4] != "-" else []
-    return t[1], int(t[2]), chans, enable, int(t[5]), int(t[6])
+    return t[1], int(t[2]), chans, enable, int(t[5]), int(t[6]), (t[7] if len(t) > 7 else "ref")
 
 
 def stream_frame_len(chans):
     return 1 + sum(1 + sg.STD[c["type"] & 0x1F][1] * c["vdim"] + c["mlen"] for c in chans)
 
 
-def run_stream_session(pstr, flags, chans, enable, nframes, chunk=0):
+def run_stream_session(pstr, flags, chans, enable, nframes, chunk=0, dev="ref"):
     """connect, read the device description, enable channels, write, start the stream, take `nframes` stream frames
     from CommHandler.stream_data(), stop, disconnect.  pstr None = the built-in codec.  chunk > 0: the link hands
     out at most `chunk` bytes per read (then the stream is slowed down so that the client keeps up)."""
+    devkind = dev
     rc = fc.RefCodec(pstr) if pstr else None
     flen = stream_frame_len(chans) + (rc.hdr_len + rc.foot_len if rc else 6)
     every = 2 if not chunk else 3 * (-(-flen // chunk)) + 5
@@ -142,7 +176,8 @@ def run_stream_session(pstr, flags, chans, enable, nframes, chunk=0):
     def scenario(sim):
         from nxslib.comm import CommHandler
         from nxslib.proto.parse import Parser
-        dev = refdev.RefDevice(chans, flags=flags, codec=rc)
+        dcls = fc.pr_device_factory(pstr) if (devkind == "pr" and pstr) else refdev.RefDevice
+        dev = dcls(chans, flags=flags, codec=rc)
         link = refdev.make_link(sim, dev, stream_every=every, chunker=(lambda n: chunk) if chunk else None)
         comm = CommHandler(link, Parser(frame=fc.frame_cls(pstr)) if pstr else Parser())
         comm.connect()
@@ -165,6 +200,8 @@ def run_stream_session(pstr, flags, chans, enable, nframes, chunk=0):
         a2 = comm.stream_stop()
         comm.disconnect()
         return {"description": desc, "acks": (repr(a1), repr(a2)), "stream": frames, "dev_en": dev.en,
+                "wire_problems": [(fid, hexs(pl), f if isinstance(f, str) or f is None else hexs(f))
+                                  for fid, pl, f in getattr(dev, "wire_problems", [])],
                 "dev_started": dev.started, "requests": [(k, hexs(p)) for _, k, p in dev.log],
                 "live_after": [t.name for t in sim.live_tasks()], "time": round(sim.now * 10)}
 
@@ -180,7 +217,7 @@ def parse_session(line):
     # session <P> <flags> <en> <div> <started> <ops>
     en = [] if t[3] == "-" else [c == "1" for c in t[3]]
     div = [] if t[4] == "-" else [int(x) for x in t[4].split(",")]
-    return t[1], int(t[2]), en, div, t[5] == "1", t[6].split(";")
+    return t[1], int(t[2]), en, div, t[5] == "1", t[6].split(";"), (t[7] if len(t) > 7 else "ref")
 
 
 # ---------------------------------------------------------------------------------------------------------
@@ -249,34 +286,149 @@ def draw_codecs(rng, n):
         s = str(p)
         if s not in out:
             out.append(s)
-    return out
+    # how each member is realised as a Python class (famcodec.frame_cls): derived from ICommFrame or from another
+    # concrete codec class (s), rejections reported as HDR / FOOT or (partly: e, always: E) as the generic ERR
+    return [P + (";impl=" + IMPLS[i % len(IMPLS)] if IMPLS[i % len(IMPLS)] else "") for i, P in enumerate(out)]
+
+
+IMPLS = ["", "s", "e", "sE", "", "se", "E", "s"]
+
+
+def builder_args(rng):
+    """argument lists of the library's builders — the SAME list is run with every codec (payload-keyed shared state!)"""
+    A = []
+    for r in (0, 0, -22, 1, 0):
+        A.append(f"ackenc {r}")
+    for _ in range(2):
+        a = f"cmnenc {rng.randrange(256)} {rng.randrange(4)} {rng.choice([0, 16])}"
+        A += [a, a]
+    for i in range(3):
+        name = rng.choice(["ch%d" % i, "chan%d" % i, "vé%d" % i, "x" * rng.randrange(1, 30)])
+        a = (f"chienc {rng.randrange(2)} {rng.choice([1, 2, 10, 18, 0x8a])} {rng.randrange(4)} {rng.choice([0, 3, 200])} "
+             f"{rng.choice([0, 1, 4])} {hexs(name.encode())}")
+        A += [a, a]
+    A += ["reqstart 1", "reqstart 0", "reqcmninfo", "reqcmninfo", f"reqchinfo {rng.randrange(255)}", "reqchinfo 0"]
+    for _ in range(2):
+        n = rng.choice([1, 2, 3, 5, 8, 12])
+        c = rng.randrange(n)
+        v = rng.randrange(2)
+        mixed = [rng.randrange(2) for _ in range(n)]
+        if n > 1:
+            mixed[0], mixed[1] = 0, 1
+        A.append(f"reqen s {n} {c} {v}")
+        A.append(f"reqen v {n} {''.join(str(v) for _ in range(n))}")
+        A.append(f"reqen v {n} {''.join(map(str, mixed))}")
+        d = rng.choice([0, 1, 3, 200, 255])
+        dm = [rng.choice([0, 1, 7, 255]) for _ in range(n)]
+        if n > 1:
+            dm[0], dm[1] = 2, 9
+        A.append(f"reqdiv s {n} {c} {d}")
+        A.append(f"reqdiv v {n} {','.join(str(d) for _ in range(n))}")
+        A.append(f"reqdiv v {n} {','.join(map(str, dm))}")
+    for _ in range(3):
+        layout = gen.gen_layout(rng, {}, nmax=4)
+        layout = [(ty, min(vd, 3), ml if ml in (0, 1, 2, 4) else 0) for ty, vd, ml in layout]
+        strs = []
+        for _ in range(rng.randrange(1, 4)):
+            chan = rng.randrange(len(layout))
+            ty, vd, ml = layout[chan]
+            if ty == 1 and ml == 0:
+                layout[chan] = (1, 0, 1)       # a NONE-type sample carries something only through its metadata
+            smp = gen.gen_sample(rng, layout, {}, chan, for_encode=True)
+            strs.append(gen.sample_str(layout, {}, smp, client_side=False))
+        a = "streamenc - " + "|".join(strs)
+        A += [a, a]
+    return A
+
+
+BUILDER_OPS = ("ackenc", "cmnenc", "chienc", "reqstart", "reqcmninfo", "reqchinfo", "reqen", "reqdiv", "streamenc")
+
+
+def builder_payload(t):
+    """(frame id, NxScope payload) the protocol prescribes for a builder line `<op> <args…>` — written from the protocol
+    description, independent of nxslib and of the model; None = no frame (nothing to stream)"""
+    op = t[0]
+    if op == "ackenc":
+        return 4, struct.pack("<i", int(t[1]))
+    if op == "cmnenc":
+        return 2, bytes([int(t[1]), int(t[2]), int(t[3])])
+    if op == "chienc":
+        return 3, bytes([int(t[1]) & 1, int(t[2]), int(t[3]), int(t[4]), int(t[5])]) + unhex(t[6])
+    if op == "reqstart":
+        return 5, bytes([int(t[1])])
+    if op == "reqcmninfo":
+        return 2, b""
+    if op == "reqchinfo":
+        return 3, bytes([int(t[1])])
+    if op in ("reqen", "reqdiv"):
+        fid = 6 if op == "reqen" else 7
+        if t[1] == "s":
+            return fid, bytes([0, int(t[3]), int(t[4])])
+        vals = [int(c) for c in t[3]] if op == "reqen" else [int(x) for x in t[3].split(",")]
+        if len(set(vals)) == 1 and len(vals) == int(t[2]):
+            return fid, bytes([2, 0, vals[0]])
+        return fid, bytes([1, 0] + vals)
+    if op == "streamenc":
+        parsed = [sg.parse_sample(x) for x in t[2].split("|")]
+        layout = {c: (ty, vd, ml) for c, ty, vd, ml, _, _ in parsed}
+        smp = [(c, data, meta) for c, ty, vd, ml, data, meta in parsed if data or meta]
+        if not smp:
+            return None
+        return 1, sg.ref_wire(layout, {}, smp)
+    raise ValueError(t)
+
+
+SEARCH_CODECS = ["sof=a5;hdr=S,F,F,L2be,F,F,I;foot=crc32be", "sof=7e;hdr=S,L1,I;foot=xor;impl=s",
+                 "sof=55;hdr=S,L2le,I;foot=sum4le;impl=se", "sof=33;hdr=S,I,L2le;foot=sum2be;impl=E"]
+
+
+# sessions run on every check: a member derived from ICommFrame and one derived from SerialFrame, each against the
+# reference device and against the ParseRecv-based device
+_FIX = ["sof=a5;hdr=S,I,L2be,F,F;foot=xor", "sof=a5;hdr=S,L2le,I;foot=sum2be;impl=s"]
+FIXED_SESSIONS = [f"session {P} 3 010 0,0,0 0 e0;v3:1;W:a:a;d0,1;W:a:a {dev}" for P in _FIX for dev in ("ref", "pr")]
+FIXED_STREAMS = [f"stream {P} 3 10:2:0:0,4:1:1:1,18:4:0:0 0,2 3 3 {dev}" for P in _FIX for dev in ("ref", "pr")]
 
 
 class C20(Prop):
     id = "C20"
     lean_module = "NxsModel.Props.C20"
     rule = ("24 (quick) / 200 (thorough) codecs drawn from VERIF_SEED, stratified over header length 3..8 and the ten "
-            "footer kinds (+ fixed corner members: start byte 0x00, 3- and 8-byte headers); per codec: (a) the ICommFrame "
+            "footer kinds (+ fixed corner members: start byte 0x00, 3- and 8-byte headers, 24- and 32-bit length fields), "
+            "each realised as a Python class in one of eight ways (derived from ICommFrame, or from ANOTHER CONCRETE codec "
+            "class — the built-in SerialFrame, then each other, parents instantiated first; rejections reported as HDR / "
+            "FOOT, or partly / always as the generic EParseError.ERR); (0) EVERY frame_create site of the library — the six "
+            "Parser builders incl. enable / div in tuple, ALL and BULK form, the four ParseRecv encoders incl. chinfo and "
+            "stream — with every drawn codec AND the built-in one in ONE process, the same argument list passing through "
+            "all codecs in alternating order, vs the codec-generic builders of Generic.lean; per codec: (a) the ICommFrame "
             "subclass generated for it vs the Lean family on create (ids 0..9/255/256, lengths incl. the 255/256 and "
             "65535/65536 length-field boundaries) / decode / hdr / foot / find inputs; (b) streams of valid frames, noise "
             "rich in the codec's start byte, cut-off / damaged frames, bogus headers x chunkings (all compositions of "
-            "short streams, every single split, byte-wise, random, empty reads) through the real CommHandler._recv_thread "
-            "with Parser(frame=cls) vs Reasm.run (codec P); (c) requests, leading noise, zero padding, near-miss footers, "
-            "declared-length / id / start-byte sweeps, truncations, noise through the real ParseRecv(cb, frame=cls) vs "
-            "recvHandleWith (codec P); (d) whole client sessions (connect, random configuration history, writes, "
-            "disconnect) of the real CommHandler under virtual time against the reference device speaking the same "
-            "codec, compared op by op with the same history under the built-in codec after decoding the sent frames "
-            "(decoded requests at the device with their virtual times, client view, device state, errors), and connect / "
-            "read description / enable / write / stream start / N stream frames through stream_data() / stop / disconnect "
-            "sessions on devices with mixed channel types, vector sizes and metadata, once with whole reads and once with "
-            "reads of 1..11 bytes, compared with the built-in-codec run (description, samples, acks, requests); "
+            "short streams, every single split, byte-wise, random, empty reads), and frames of 64 / 65 / 255 / 256 / 257 / "
+            "1024 / 1025 (every codec) and 32767 / 32768 / 65535 (every fourth) and 65536+ (wide length fields) bytes, "
+            "through the real CommHandler._recv_thread with Parser(frame=cls) vs Reasm.run (codec P); (c) requests, "
+            "leading noise, zero padding, near-miss footers, declared-length / id / start-byte sweeps, truncations, noise "
+            "and the same frame sizes through the real ParseRecv(cb, frame=cls) vs recvHandleWith (codec P); (d) whole "
+            "client sessions (connect, random configuration history, writes, disconnect) of the real CommHandler under "
+            "virtual time, half against the reference device speaking the same codec and half against a device whose wire "
+            "side is the real ParseRecv(cb, frame=cls) (recv_handle + the four encoders, built like DummyDev's callbacks), "
+            "compared op by op with the same history under the built-in codec after decoding the sent frames (decoded "
+            "requests at the device with their virtual times, client view, device state, errors; every frame of the real "
+            "encoders = the codec's framing of the NxScope payload), and connect / read description / enable / write / "
+            "stream start / N stream frames through stream_data() / stop / disconnect sessions on devices with mixed "
+            "channel types, vector sizes and metadata, with whole reads and with reads of 1..11 bytes, compared with the "
+            "built-in-codec run (description, samples, acks, requests); "
             "distinct = distinct line; non-trivial = a line whose codec differs from the built-in one in header length, "
             "footer length or start byte and whose input contains the codec's start byte")
     assumptions = ["the ICommFrame subclasses of harness/famcodec.py are checked against the Lean family on every run "
-                   "(create/decode/hdr/foot/find), not verified",
+                   "(create/decode/hdr/foot/find), not verified; a codec may report a rejection with any non-NOERR code: for the "
+                   "members realised with EParseError.ERR the error KIND of decode / hdr is not compared (success / failure is)",
                    "virtual-time runtime (harness/vsim.py) and reference device (harness/refdev.py) as in C07",
-                   "session-level equivalence is established by differential runs, not by a Lean theorem: the Lean "
-                   "Config/Handshake models are written for the built-in codec"]
+                   "requests, device description, acknowledgements and stream delivery under a custom codec are theorems over "
+                   "every lawful codec (Props/C20.lean, section 'the complete client session'); the Config / Handshake state "
+                   "machines (retries, buffering, resynchronisation) are functions of the decoded frames and their equivalence "
+                   "under custom codecs is established by differential sessions, not by a Lean theorem",
+                   "nxslib's simulated device DummyDev constructs ParseRecv(cb) with the built-in codec and cannot be given a "
+                   "codec; the ParseRecv-based device of the sessions is harness/famcodec.py's PRDevice"]
     trusted_base = Prop.trusted_base + ["harness/translate_frameuse.py (static scan of codec uses / frame literals)"]
 
     def __init__(self):
@@ -288,20 +440,41 @@ class C20(Prop):
     # -- helpers ------------------------------------------------------------------------------------------
     def rc(self, pstr):
         if pstr not in self._rc:
-            self._rc[pstr] = fc.RefCodec(pstr)
+            self._rc[pstr] = refdev.SerialCodec() if pstr == "serial" else fc.RefCodec(pstr)
         return self._rc[pstr]
+
+    @staticmethod
+    def cls(pstr):
+        if pstr == "serial":
+            from nxslib.proto.serialframe import SerialFrame
+            return SerialFrame
+        return fc.frame_cls(pstr)
 
     _parsers = {}
 
     def rec(self, pstr):
         if pstr not in self._rec:
-            self._rec[pstr] = Recorder(fc.frame_cls(pstr))
+            self._rec[pstr] = Recorder(self.cls(pstr))
         return self._rec[pstr]
+
+    def parser(self, pstr):
+        from nxslib.proto.parse import Parser
+        if pstr not in self._parsers:
+            self._parsers[pstr] = Parser(frame=self.cls(pstr))
+        return self._parsers[pstr]
 
     # -- cases --------------------------------------------------------------------------------------------
     def cases(self, rng, tier):
         T = tier == "thorough"
         self.codecs = draw_codecs(rng, 200 if T else 24)
+        # EVERY `frame_create` site of the library (Gen.FrameUse.uses: the six Parser builders incl. enable / div in
+        # their single / ALL / BULK forms, the four ParseRecv encoders incl. chinfo and stream) with every drawn codec AND
+        # the built-in one, in ONE process, the same arguments passing through all codecs one after the other (state
+        # shared between parser objects or codec classes shows here), in alternating codec order
+        order = ["serial"] + self.codecs
+        for k, a in enumerate(builder_args(rng)):
+            for P in (order if k % 2 == 0 else order[::-1]):
+                yield f"fam {P} {a}", "builder-" + a.split(" ")[0]
         for ci, P in enumerate(self.codecs):
             rc = self.rc(P)
             pre = f"fam {P} "
@@ -310,12 +483,6 @@ class C20(Prop):
             for fid in [0, 1, 2, 5, 8, 9, 255, 256]:
                 yield pre + f"create {fid} {hexs(g.rbytes(rng, rng.randrange(0, 6)))}", "create"
             yield pre + "create 2 none", "create"
-            # the library's own builders with this codec, in one process with all the other codecs (shared state!)
-            for r in (0, 0, -22, 1):
-                yield pre + f"ackenc {r}", "builder-ack"
-            yield pre + f"cmnenc {rng.randrange(256)} {rng.randrange(4)} {rng.choice([0, 16])}", "builder-cmninfo"
-            yield pre + f"reqstart {rng.randrange(2)}", "builder-start"
-            yield pre + f"reqchinfo {rng.randrange(255)}", "builder-chinfo"
             lim = 256 ** rc.len_n - rc.hdr_len - rc.foot_len      # first payload length that does not fit
             if rc.len_n == 1 or (rc.len_n == 2 and ci % 4 == 0):
                 for n in (lim - 1, lim):
@@ -335,6 +502,24 @@ class C20(Prop):
                     tail = valid_frame(rng, rc)
                     yield pre + f"reasm run {hexs(big[:k1])},{hexs(big[k1:k2])},-,{hexs(big[k2:] + tail)}", "reasm-over-64k"
                     yield pre + f"recv handle {hexs(big + bytes(rng.randrange(0, 9)))}", "request-over-64k"
+            # frame sizes around every power-of-256 boundary of a length field and around the buffer sizes a receiver
+            # might assume (64, 1 KiB, 32 KiB, 64 KiB), through the real receive path and the real dispatcher
+            if rc.len_n == 1:
+                totals = [64, 65, 254, 255]
+            else:
+                totals = [64, 65, 255, 256, 257, 1024, 1025] + ([32767, 32768, 65535] if ci % (8 if T else 4) == 0 else [])
+            for total in totals:
+                n = total - rc.hdr_len - rc.foot_len
+                pl = bytes((i * 37 + total + (i >> 8)) & 0xFF for i in range(n))
+                fid = rng.choice([6, 7])
+                f = rc.create(fid, pl)
+                tail = valid_frame(rng, rc)
+                k1 = rng.randrange(1, min(len(f), 40))
+                k2 = rng.randrange(k1, len(f))
+                yield pre + f"reasm run {hexs(f[:k1])},{hexs(f[k1:k2])},-,{hexs(f[k2:] + tail)}", "reasm-boundary-size"
+                yield pre + f"reasm run {hexs(tail + f)},{hexs(tail)}", "reasm-boundary-size"
+                yield pre + f"recv handle {hexs(f + bytes(rng.randrange(0, 9)))}", "request-boundary-size"
+                yield pre + f"create {fid} {hexs(pl)}", "create-boundary-size"
             for _ in range(6):
                 f = valid_frame(rng, rc)
                 yield pre + f"decode {hexs(f)}", "decode-valid"
@@ -355,7 +540,7 @@ class C20(Prop):
                 yield pre + f"decode {hexs(rc.create(fid, b'ab'))}", "decode-id-sweep"
             # (b) reassembly through the real receive path
             for _ in range(3 if T else 2):
-                s = gen_stream(rng, rc, 2)[:(10 if T else 9)]
+                s = gen_stream(rng, rc, 2)[:(10 if T and ci % 2 == 0 else 9)]
                 for sizes in g.compositions(len(s)):
                     yield pre + "reasm run " + ",".join(hexs(c) for c in (g.chunk(s, sizes) or [b""])), "all-compositions"
             for _ in range(4 if T else 2):
@@ -409,10 +594,56 @@ class C20(Prop):
                 yield pre + f"recv handle {hexs(noise(rng, rc, rng.randrange(0, 24)))}", "noise"
 
     # -- real code ----------------------------------------------------------------------------------------
+    def builder(self, P, t):
+        """run the library's builder named by `t` (op, args…) with codec P; canonical output line"""
+        op = t[0]
+
+        class D:
+            pass
+        try:
+            if op == "ackenc":
+                f = self.rec(P).p.frame_ack_encode(int(t[1]))
+            elif op == "cmnenc":
+                d = D()
+                d.data = D()
+                d.data.chmax, d.data.flags, d.data.rxpadding = int(t[1]), int(t[2]), int(t[3])
+                f = self.rec(P).p.frame_cmninfo_encode(d)
+            elif op == "chienc":
+                c = D()
+                c.data = D()
+                c.data.en, c.data._type, c.data.vdim, c.data.div, c.data.mlen = (bool(int(t[1])), int(t[2]), int(t[3]), int(t[4]),
+                                                                                  int(t[5]))
+                c.data.name = unhex(t[6]).decode("utf-8")
+                f = self.rec(P).p.frame_chinfo_encode(c)
+            elif op == "streamenc":
+                f = self.rec(P).p.frame_stream_encode(sg.real_samples(t[2]))
+                if f is None:
+                    return "ok none"
+            elif op == "reqstart":
+                f = self.parser(P).frame_start(bool(int(t[1])))
+            elif op == "reqcmninfo":
+                f = self.parser(P).frame_cmninfo()
+            elif op == "reqchinfo":
+                f = self.parser(P).frame_chinfo(int(t[1]))
+            elif op == "reqen":
+                n = int(t[2])
+                arg = (int(t[3]), bool(int(t[4]))) if t[1] == "s" else [c == "1" for c in t[3]]
+                f = self.parser(P).frame_enable(arg, n)
+            elif op == "reqdiv":
+                n = int(t[2])
+                arg = (int(t[3]), int(t[4])) if t[1] == "s" else [int(x) for x in t[3].split(",")]
+                f = self.parser(P).frame_div(arg, n)
+            else:
+                raise ValueError(op)
+        except Exception as e:
+            return "err " + exc_name(e)
+        return "ok " + hexs(f)
+
     def impl(self, line):
         t = line.split(" ")
         P, op = t[1], t[2]
-        cls = fc.frame_cls(P)
+        cls = self.cls(P)
+        canon = P != "serial" and any(c in fc.split_impl(P)[1] for c in "eE")     # error KINDS are the codec's choice
         if op == "reasm":
             chunks = [unhex(c) for c in t[4].split(",")]
             try:
@@ -421,25 +652,8 @@ class C20(Prop):
                 return "spin " + str(e)
         if op == "recv":
             return self.rec(P).handle(unhex(t[4]))
-        if op in ("ackenc", "cmnenc", "reqstart", "reqchinfo"):
-            try:
-                if op == "ackenc":
-                    return "ok " + hexs(self.rec(P).p.frame_ack_encode(int(t[3])))
-                if op == "cmnenc":
-                    class D:
-                        pass
-                    d = D()
-                    d.data = D()
-                    d.data.chmax, d.data.flags, d.data.rxpadding = int(t[3]), int(t[4]), int(t[5])
-                    return "ok " + hexs(self.rec(P).p.frame_cmninfo_encode(d))
-                from nxslib.proto.parse import Parser
-                if P not in self._parsers:
-                    self._parsers[P] = Parser(frame=cls)
-                if op == "reqstart":
-                    return "ok " + hexs(self._parsers[P].frame_start(bool(int(t[3]))))
-                return "ok " + hexs(self._parsers[P].frame_chinfo(int(t[3])))
-            except Exception as e:
-                return "err " + exc_name(e)
+        if op in BUILDER_OPS:
+            return self.builder(P, t[2:])
         fr = cls()
         if op == "info":
             return f"ok {fr.hdr_len} {fr.foot_len}"
@@ -451,10 +665,10 @@ class C20(Prop):
         d = unhex(t[3])
         if op == "decode":
             r = fr.frame_decode(d)
-            return "err " + r.err.name if r.err != 0 else f"ok {int(r.fid)} {hexs(r.data)}"
+            return "err " + ("REJ" if canon else r.err.name) if r.err != 0 else f"ok {int(r.fid)} {hexs(r.data)}"
         if op == "hdr":
             r = fr.hdr_decode(d)
-            return "err " + r.err.name if r.err != 0 else f"ok {int(r.fid)} {r.flen}"
+            return "err " + ("REJ" if canon else r.err.name) if r.err != 0 else f"ok {int(r.fid)} {r.flen}"
         if op == "foot":
             return "ok " + ("1" if fr.foot_validate(d) else "0")
         if op == "find":
@@ -463,17 +677,25 @@ class C20(Prop):
 
     def nontrivial(self, line, out):
         t = line.split(" ")
-        if t[0] != "fam" or t[2] == "info":
+        if t[0] != "fam" or t[2] == "info" or t[1] == "serial":
             return False
         rc = self.rc(t[1])
         if (rc.hdr_len, rc.foot_len, rc.sof) == (4, 2, 0x55):
             return False
-        if t[2] in ("ackenc", "cmnenc", "reqstart", "reqchinfo"):
+        if t[2] in BUILDER_OPS:
             return True
         arg = t[-1]
         if arg in ("-", "none"):
             return False
         return rc.sof in b"".join(unhex(c) for c in arg.split(","))
+
+    def warm(self, P, t):
+        """the history a builder line stands in: the same arguments went through the built-in codec and through another
+        custom codec first (in a check run this has happened anyway; a replay starts from a fresh process)"""
+        others = ["serial"] + [Q for Q in (self.codecs or SEARCH_CODECS) if Q != P][:2]
+        for Q in others:
+            if Q != P:
+                self.builder(Q, t)
 
     # -- the property, on the real code -------------------------------------------------------------------
     def oracle(self, line, impl_out=None):
@@ -484,7 +706,7 @@ class C20(Prop):
             return self.stream_oracle(line)
         P, op = t[1], t[2]
         rc = self.rc(P)
-        cls = fc.frame_cls(P)
+        cls = self.cls(P)
         if op == "reasm":
             chunks = [unhex(c) for c in t[4].split(",")]
             want = fc.ref_scan(rc, b"".join(chunks))
@@ -518,28 +740,51 @@ class C20(Prop):
                                 "exactly the declared length, payload between header and footer)",
                         "codec": P, "hdr_len": rc.hdr_len, "foot_len": rc.foot_len, "expected": want, "observed": out}
             return None
-        if op in ("ackenc", "cmnenc", "reqstart", "reqchinfo"):
+        if op in BUILDER_OPS:
             # the library's builders with this codec must emit this codec's framing of the NxScope payload,
             # whatever other codecs were used in the same process before
-            import struct as _st
-            if op == "ackenc":
-                fid, pl = 4, _st.pack("<i", int(t[3]))
-            elif op == "cmnenc":
-                fid, pl = 2, bytes([int(t[3]), int(t[4]), int(t[5])])
-            elif op == "reqstart":
-                fid, pl = 5, bytes([int(t[3])])
-            else:
-                fid, pl = 3, bytes([int(t[3])])
-            want = "ok " + hexs(rc.create(fid, pl))
+            want_p = builder_payload(t[2:])
+            want = "ok none" if want_p is None else "ok " + hexs(rc.create(want_p[0], want_p[1]))
+            self.warm(P, t[2:])
             got = self.impl(line)
             if got != want:
-                return {"key": "builder-custom-codec", "what": f"{op} with Parser/ParseRecv(frame=<custom codec>) does not emit that codec's framing "
-                        "(after other codecs were used in the same process)", "codec": P, "expected": want, "observed": got}
+                return {"key": "builder-custom-codec",
+                        "what": f"{op} with Parser / ParseRecv(frame=<codec>) does not emit that codec's framing of the NxScope "
+                                "payload (all codecs, the built-in one included, are used in the same process; the same "
+                                "arguments were passed to the other codecs' builders before)",
+                        "codec": P, "realisation": "built-in SerialFrame" if P == "serial" else fc.realisation(P),
+                        "payload": "-" if want_p is None else hexs(want_p[1]), "expected": want, "observed": got}
+            return None
+        if op in ("info", "create", "decode", "hdr", "foot", "find") and P != "serial":
+            # the codec class handed to nxslib must still BE that codec when nxslib instantiates it (`frame()` in
+            # Parser.__init__ / ParseRecv.__init__): judged on the object the library holds, against the reference codec
+            fr = self.parser(P).frame
+            prob = None
+            if (fr.hdr_len, fr.foot_len) != (rc.hdr_len, rc.foot_len):
+                prob = (f"hdr_len/foot_len {rc.hdr_len}/{rc.foot_len}", f"{fr.hdr_len}/{fr.foot_len}")
+            elif op == "create" and t[4] != "none" and int(t[3]) <= 255 and rc.fits(len(unhex(t[4]))):
+                w = rc.create(int(t[3]), unhex(t[4]))
+                g_ = fr.frame_create(int(t[3]), unhex(t[4]))
+                if g_ != w:
+                    prob = (hexs(w), hexs(g_))
+            elif op == "decode":
+                d = unhex(t[3])
+                w = rc.decode_at(d, 0)
+                r = fr.frame_decode(d)
+                g_ = None if r.err != 0 else (int(r.fid), bytes(r.data))
+                if (None if w is None else (w[0], w[1])) != g_:
+                    prob = (repr(w and (w[0], hexs(w[1]))), repr(g_ and (g_[0], hexs(g_[1]))))
+            if prob:
+                return {"key": "codec-object-custom-codec",
+                        "what": "the codec object Parser(frame=<class>) holds does not behave like an instance of the class "
+                                "it was given (sizes / created frame / decoded frame differ from the member's reference codec)",
+                        "codec": P, "realisation": fc.realisation(P), "object": type(fr).__name__,
+                        "expected": prob[0], "observed": prob[1]}
             return None
         return None      # (a) lines exercise the harness' own ICommFrame subclass, not nxslib
 
     def session_oracle(self, line):
-        P, flags, en, div, started, ops = parse_session(line)
+        P, flags, en, div, started, ops, dev = parse_session(line)
         rc = self.rc(P)
         if not rc.fits(max(2 + len(en), 1 + 5 * len(en))):
             self.skipped += 1
@@ -550,11 +795,19 @@ class C20(Prop):
             self.skipped += 1
             return None      # the history does not run under the built-in codec either: outside this property
         try:
-            out, summ = run_session(P, flags, en, div, ops, started)
+            out, summ = run_session(P, flags, en, div, ops, started, dev)
         except Exception as e:
             return {"key": "session-custom-codec", "what": "a client session that completes with the built-in codec raises "
                     f"{type(e).__name__}: {str(e)[:120]} with a custom codec on both sides", "codec": P,
                     "expected": "same results as with the built-in codec", "observed": type(e).__name__}
+        wp = summ.pop("wire_problems", [])
+        if wp:
+            fid, pl, f = wp[0]
+            return {"key": "device-encoder-custom-codec",
+                    "what": "in a session whose device is built on ParseRecv(cb, frame=<custom codec>) an answer / stream frame of "
+                            "nxslib's device-side encoders is not that codec's framing of the NxScope payload", "codec": P,
+                    "realisation": fc.realisation(P), "frame_id": fid, "payload": pl,
+                    "expected": hexs(rc.create(fid, unhex(pl))), "observed": f}
         if summ != ref_sum:
             k = next(k for k in summ if summ[k] != ref_sum[k])
             return {"key": "session-custom-codec", "what": f"session summary field {k!r} differs between the custom and the "
@@ -568,7 +821,7 @@ class C20(Prop):
         return None
 
     def stream_oracle(self, line):
-        P, flags, chans, enable, nframes, chunk = parse_stream(line)
+        P, flags, chans, enable, nframes, chunk, dev = parse_stream(line)
         rc = self.rc(P)
         if not rc.fits(max(2 + len(chans), stream_frame_len(chans))):
             self.skipped += 1
@@ -580,11 +833,20 @@ class C20(Prop):
             return None
         want_desc = (len(chans), flags, 0, [(c["type"], c["vdim"], c["name"], c["en"], 0, c["mlen"]) for c in chans])
         try:
-            got = run_stream_session(P, flags, chans, enable, nframes, chunk)
+            got = run_stream_session(P, flags, chans, enable, nframes, chunk, dev)
         except Exception as e:
             return {"key": "stream-session-custom-codec", "what": "a connect / stream / disconnect session that completes with the "
                     f"built-in codec raises {type(e).__name__}: {str(e)[:120]} with a custom codec on both sides", "codec": P,
                     "expected": "same results as with the built-in codec", "observed": type(e).__name__}
+        wp = got.pop("wire_problems", [])
+        ref.pop("wire_problems", None)
+        if wp:
+            fid, pl, f = wp[0]
+            return {"key": "device-encoder-custom-codec",
+                    "what": "in a streaming session whose device is built on ParseRecv(cb, frame=<custom codec>) an answer / stream "
+                            "frame of nxslib's device-side encoders is not that codec's framing of the NxScope payload", "codec": P,
+                    "realisation": fc.realisation(P), "frame_id": fid, "payload": pl,
+                    "expected": hexs(rc.create(fid, unhex(pl))), "observed": f}
         if got["description"] != want_desc:
             return {"key": "stream-session-custom-codec", "what": "device description read by the client differs from the device",
                     "codec": P, "expected": repr(want_desc)[:400], "observed": repr(got["description"])[:400]}
@@ -605,13 +867,16 @@ class C20(Prop):
                 for _ in range(n):
                     ty = rng.choice([1, 2, 3, 4, 5, 6, 7, 8, 9, 10, 11, 12, 13, 14, 15, 18])
                     vdim = 0 if ty == 1 else rng.randrange(1, 4)
-                    chans.append(f"{ty}:{vdim}:{rng.choice([0, 0, 1, 2, 4])}:{int(rng.random() < 0.3)}")
+                    mlen = rng.choice([0, 0, 1, 2, 4])
+                    if ty == 1 and mlen == 0 and (ci + k) % 2:
+                        mlen = 1      # a sample without data and without metadata is never put on the wire by nxslib's encoder
+                    chans.append(f"{ty}:{vdim}:{mlen}:{int(rng.random() < 0.3)}")
                 enable = sorted(set(rng.randrange(n) for _ in range(rng.randrange(0, n + 1))))
                 if not enable and not any(c.endswith(":1") for c in chans):
                     enable = [rng.randrange(n)]      # something must stream
                 chunk = 0 if k == 0 else rng.choice([1, 2, 3, 5, 7, 11])
                 yield (f"stream {P} {rng.choice([2, 3])} {','.join(chans)} {','.join(map(str, enable)) or '-'} "
-                       f"{rng.randrange(2, 6)} {chunk}")
+                       f"{rng.randrange(2, 6)} {chunk} {'pr' if (ci + k) % 2 else 'ref'}")
 
     def session_lines(self, rng, tier):
         T = tier == "thorough"
@@ -625,7 +890,8 @@ class C20(Prop):
                 div = [rng.choice([0, 0, 3, 200]) for _ in range(n)]
                 ops = gen_history(rng, n, "a", maxlen=10)
                 started = rng.random() < 0.3
-                yield f"session {P} {flags} {sl.bits(en)} {sl.ints(div)} {int(started)} {';'.join(ops)}"
+                yield (f"session {P} {flags} {sl.bits(en)} {sl.ints(div)} {int(started)} {';'.join(ops)} "
+                       f"{'pr' if (ci + k) % 2 else 'ref'}")
 
     def extra_checks(self, rng, tier, ev):
         """(d) whole sessions, real code on both runs; and the self-check of the two harness implementations"""
@@ -642,7 +908,7 @@ class C20(Prop):
                 assert (int(r.fid), r.data, int(r.err)) == (fid, p, 0), ("famcodec self-check: decode", P)
                 assert rc.decode_at(f, 0) == (fid, p, len(f)), ("famcodec self-check: ref decode", P)
         self.skipped = 0
-        lines = list(self.session_lines(rng, tier))
+        lines = FIXED_SESSIONS + list(self.session_lines(rng, tier))
         nreq = 0
         nwrites = 0
         for l in lines:
@@ -653,7 +919,7 @@ class C20(Prop):
                 if len(viol) >= 3:
                     break
             nwrites += l.count("W:")
-        slines = list(self.stream_lines(rng, tier))
+        slines = FIXED_STREAMS + list(self.stream_lines(rng, tier))
         nstream = 0
         for l in slines:
             if len(viol) >= 3:
@@ -677,10 +943,14 @@ class C20(Prop):
         return viol
 
     def search_cases(self, rng):
-        """targeted: codecs whose sizes / start byte differ from the built-in ones in each direction"""
-        for P in ["sof=a5;hdr=S,F,F,L2be,F,F,I;foot=crc32be", "sof=7e;hdr=S,L1,I;foot=xor",
-                  "sof=55;hdr=S,L2le,I;foot=sum4le", "sof=33;hdr=S,I,L2le;foot=sum2be"]:
+        """targeted: codecs whose sizes / start byte / realisation differ from the built-in ones in each direction"""
+        order = ["serial"] + SEARCH_CODECS
+        for k, a in enumerate(builder_args(rng)):
+            for P in (order if k % 2 == 0 else order[::-1]):
+                yield f"fam {P} {a}", "search"
+        for P in SEARCH_CODECS:
             rc = self.rc(P)
+            yield f"fam {P} info", "search"
             f1, f2 = rc.create(2, b""), rc.create(5, b"\x01")
             for lead in (b"", b"\x01", b"\x01\x02\x03"):
                 s = lead + f1 + f2
@@ -689,9 +959,19 @@ class C20(Prop):
                 yield f"fam {P} reasm run " + ",".join(hexs(bytes([b])) for b in s), "search"
                 yield f"fam {P} recv handle {hexs(lead + f2)}", "search"
                 yield f"fam {P} recv handle {hexs(lead + f2 + bytes(7))}", "search"
-            yield f"session {P} 3 010 0,0,0 0 e0;v3:1;W:a:a;d0,1;W:a:a", "search"
-            yield f"stream {P} 3 10:2:0:0,4:1:1:1,18:4:0:0 0,2 3 0", "search"
-            yield f"stream {P} 3 10:2:0:0,4:1:1:1,18:4:0:0 0,2 3 3", "search"
+            # header candidates declaring every small length, in front of a valid frame
+            for n in range(0, rc.hdr_len + rc.foot_len + 2):
+                runt = rc.set_len(rc.create(3, b"\x07"), n)[:rc.hdr_len]
+                yield f"fam {P} reasm run {hexs(runt + f1)},{hexs(f2)}", "search"
+                yield f"fam {P} recv handle {hexs(rc.refoot(rc.set_len(rc.create(9, b'ab'), rc.hdr_len + rc.foot_len + 2)))}", "search"
+            for total in ([64, 65, 255] if rc.len_n == 1 else [64, 65, 255, 256, 1024, 1025, 32768, 65535]):
+                f = rc.create(6, bytes((i * 7 + total) & 0xFF for i in range(total - rc.hdr_len - rc.foot_len)))
+                yield f"fam {P} reasm run {hexs(f[:7])},{hexs(f[7:])},{hexs(f1)}", "search"
+                yield f"fam {P} recv handle {hexs(f)}", "search"
+            for dev in ("ref", "pr"):
+                yield f"session {P} 3 010 0,0,0 0 e0;v3:1;W:a:a;d0,1;W:a:a {dev}", "search"
+                yield f"stream {P} 3 10:2:0:0,4:1:1:1,18:4:0:0 0,2 3 0 {dev}", "search"
+                yield f"stream {P} 3 10:2:0:0,4:1:1:1,18:4:0:0 0,2 3 3 {dev}", "search"
 
 
 PROP = C20()
